@@ -343,14 +343,11 @@ def build_trace(case, log):
         prev = e
     # a tick whose gather (or whose few loop iterations after it) had not finished when the run ended:
     # how resample() left it is not observed
-    endclk = next((e[1] for e in log if e[0] == "end"), None)
-    for it in trace:
-        if it[0] == "tick":
-            t = it[1]
-            last_exit = max([c for c, _ in t["exits"].values()] + [t["fire"]])
-            if len(t["exits"]) < len(t["outs"]) or (t["marker"] is None and (
-                    case["one_shot"] or (endclk is not None and last_exit >= endclk - 2))):
-                t["incomplete"] = True
+    ticks = [it[1] for it in trace if it[0] == "tick"]
+    for i, t in enumerate(ticks):
+        # without a marker a tick is known to have ended normally only because a later tick was seen
+        if len(t["exits"]) < len(t["outs"]) or (t["marker"] is None and (case["one_shot"] or i == len(ticks) - 1)):
+            t["incomplete"] = True
     return trace
 
 
